@@ -372,6 +372,7 @@ func (in *Interp) unop(g *Goroutine, fr *Frame, x *ssa.UnOp) {
 		if !ok {
 			panic(unsupported(fmt.Sprintf("load through %T", v)))
 		}
+		in.raceMem(g, p, in.cellsOf(x.Type()), false, x)
 		in.set(fr, x, in.load(p, x.Type()))
 	case token.NOT:
 		in.set(fr, x, in.tt.Not(v.(*Term)))
